@@ -200,6 +200,9 @@ func handleLTrim(params internal.HandlerFuncParams) ([]byte, error) {
 	// If start and end indices are negative, calculate them from the end of the list
 	if start < 0 {
 		start = len(list) + start
+		if start < 0 {
+			start = 0
+		}
 	}
 	if end < 0 {
 		end = len(list) + end
